@@ -914,7 +914,7 @@ def SSI_mpe(
         for fj in tqdm(freq_ref):
             sel = np.nanargmin(np.abs(Fn_pol[:, order] - fj))
             fns_at_ord_ii = Fn_pol[:, order][sel]
-            check = np.isclose(fns_at_ord_ii, freq_ref, rtol=rtol)
+            check = np.isclose(fns_at_ord_ii, fj, rtol=rtol)
             if not check.any():
                 logger.warning("Could not find any values")
                 order_out = order
@@ -935,7 +935,7 @@ def SSI_mpe(
         for ii, fj in enumerate(tqdm(freq_ref)):
             sel = np.nanargmin(np.abs(Fn_pol[:, order[ii]] - fj))
             fns_at_ord_ii = Fn_pol[:, order[ii]][sel]
-            check = np.isclose(fns_at_ord_ii, freq_ref, rtol=rtol)
+            check = np.isclose(fns_at_ord_ii, fj, rtol=rtol)
             if not check.any():
                 logger.warning("Could not find any values")
                 order_out[ii] = order[ii]
